@@ -201,6 +201,14 @@ def gcv_scores(y, wt, llas_or_lams, solver=banded_solve, lams=False):
 
 
 def robust_gcv(y, valid, llas, p=None, solver=banded_solve):
+    """Robust GCV model; a weight vector that leaves the system unsolvable makes the case degenerate."""
+    try:
+        return _robust_gcv(y, valid, llas, p, solver)
+    except (np.linalg.LinAlgError, ValueError, ZeroDivisionError):
+        return {"z": np.zeros(len(y)), "lopt": float("nan"), "margin": 0.0, "degenerate": True, "weights": np.zeros(len(y))}
+
+
+def _robust_gcv(y, valid, llas, p=None, solver=banded_solve):
     """The anchors' robust algorithm with residual statistics over VALID cells only.
 
     Returns dict(z, lopt, margin, degenerate) - degenerate when a MAD of 0 was met (then the
@@ -246,6 +254,8 @@ def robust_gcv(y, valid, llas, p=None, solver=banded_solve):
             rw = (1 - (u / 4.685) ** 2) ** 2
             rw[np.abs(u / 4.685) > 1] = 0
             rw[r > 0] = 1
+            if ((w * rw) > 0).sum() < 3:
+                degenerate = True  # (nearly) unsolvable weighting: outside the equality oracle
         else:
             degenerate = True
         hist.append(best)
@@ -257,6 +267,49 @@ def robust_gcv(y, valid, llas, p=None, solver=banded_solve):
     else:
         z, _, mg = irls(yy, valid, lopt, p, solver=solver, base_w=fw)
     return {"z": z, "lopt": lopt, "margin": min(margin, mg), "degenerate": degenerate, "weights": fw}
+
+
+def robust_lambda_candidates(y, valid, llas):
+    """Grid indices that (nearly) minimise the criterion the robust variants select lambda with: the smaller of the
+    first-pass (unit weights) and second-pass (bisquare weights from pass 1) GCV scores. -> (set | None, status)."""
+    y = np.asarray(y, dtype=float)
+    valid = np.asarray(valid, dtype=bool)
+    w = valid.astype(float)
+    n = w.sum()
+    e = gcv_eigs(y.size)
+    out = []
+    for solver in (banded_solve, lu_solve):
+        try:
+            with np.errstate(all="ignore"):
+                s1, zs = gcv_scores(y, w, llas, solver=solver)
+                if not np.isfinite(s1).all():
+                    return None, "nonfinite_gcv"
+                k1 = int(np.argmin(s1))
+                lam = 10.0 ** llas[k1]
+                r = np.where(valid, y - zs[k1], 0.0)
+                mad = np.median(np.abs(r[valid] - np.median(r[valid])))
+                rw = np.ones(y.size)
+                if mad > 0:
+                    trH = (w / (w + lam * e ** 2)).sum()
+                    u = r / (1.4826 * mad * np.sqrt(1 - trH / n))
+                    rw = (1 - (u / 4.685) ** 2) ** 2
+                    rw[np.abs(u / 4.685) > 1] = 0
+                    rw[r > 0] = 1
+                if ((w * rw) > 0).sum() < 2:
+                    rw = np.ones(y.size)
+                s2, _ = gcv_scores(y, w * rw, llas, solver=solver)
+                if not np.isfinite(s2).all():
+                    return None, "nonfinite_gcv"
+        except (np.linalg.LinAlgError, ValueError):
+            return None, "singular_robust_weights"
+        out.append((np.minimum(s1, s2), rw > 0))
+    (ca, pa), (cb, pb) = out
+    if not np.array_equal(pa, pb):
+        return None, "fragile_reference_solvers_disagree"
+    tol = 1e-7 * abs(float(ca.min())) + 50 * float(np.max(np.abs(ca - cb))) + 1e-300
+    if tol > 0.05 * float(ca.max() - ca.min()):
+        return None, "unresolvable_gcv"
+    return {int(i) for i in np.nonzero(ca <= ca.min() + tol)[0]}, None
 
 
 # =============================================================================================
